@@ -108,11 +108,18 @@ struct ResourceLayout : Family {
 		swarmEnv(p, r, true, false);
 		p.setenv("readdir", r.next() | 1); // load/listing order is always a seeded permutation
 		static const char* EXT[] = {".txt", ".map", ".bmp", ".TXT", "", ""};
-		size_t npool = static_cast<size_t>(r.range(3, 8));
+		size_t npool = static_cast<size_t>(r.chance(1, 12) ? r.range(18, 30) : r.range(3, 8));
 		std::vector<std::string> pool;
 		for (size_t i = 0; i < npool; ++i) {
 			std::string nm;
-			for (int t = 0; t < 20; ++t) { nm = randName(r, 1, 7, false) + EXT[r.below(6)]; bool c = false; for (auto& o : pool) if (ref::nameEqualNoCase(o, nm)) c = true; if (!c) break; nm.clear(); }
+			for (int t = 0; t < 20; ++t) {
+				nm = randName(r, 1, 7, false) + EXT[r.below(6)];
+				if (!pool.empty() && r.chance(1, 3)) nm = tieProneSibling(pool[r.below(pool.size())], r); // names a sloppy comparison confuses or mis-orders
+				bool c = nm.find('/') != std::string::npos;
+				for (auto& o : pool) if (ref::nameEqualNoCase(o, nm)) c = true;
+				if (!c) break;
+				nm.clear();
+			}
 			if (nm.empty()) continue;
 			pool.push_back(nm);
 			Line l = mkline("world", "pool"); l.set("name", quoteToken(nm)); p.world.push_back(l);
